@@ -469,7 +469,21 @@ package updog
 //@ pred SchemaMaps(sch *schema) := sch != nil && sch.Columns != nil
 //@   && (forall c string :: (c in sch.Columns) ==> sch.Columns[c] != nil && sch.Columns[c].Values != nil)
 
-//@ func [C05,C18] (*schema).add(sch, k, v) (result)
+// ---- what the writers record (C01): value indexes are the hashes of (column, value); bitmap h holds the rows added with it
+//@ pred SchemaHashed(sch *schema) := (forall c string, v string :: (c in sch.Columns) && (v in sch.Columns[c].Values) ==> sch.Columns[c].Values[v] == idxOf(c, v))
+//@   && (forall c string :: (c in sch.Columns) ==> allocated(sch.Columns[c]) && allocated(sch.Columns[c].Values))
+//@   && (forall c1 string, c2 string :: (c1 in sch.Columns) && (c2 in sch.Columns) && c1 != c2 ==> sch.Columns[c1].Values != sch.Columns[c2].Values)
+//@ pure wcol(w *IndexWriter, h uint64) iset := (h in w.values) ? w.values[h].view : iempty()
+//@ pred WriterSem(w *IndexWriter) := SchemaHashed(w.schema)
+//@   && (forall h uint64 :: (h in w.values) ==> allocated(w.values[h]))
+//@   && (forall h1 uint64, h2 uint64 :: (h1 in w.values) && (h2 in w.values) && h1 != h2 ==> w.values[h1] != w.values[h2])
+//@   && (forall h uint64 :: subset(wcol(w, h), univ(w.nextRowID)))
+
+//@ func [C01,C05] NewIndexWriter(filename) (w)
+//@   ensures [C05] fresh(w) && WriterInv(w) && w.nextRowID == 0 && w.filename == filename && w.mtx.held == 0
+//@   ensures [C01] WriterSem(w) && (forall h uint64 :: wcol(w, h) == iempty())
+
+//@ func [C05,C18,C01] (*schema).add(sch, k, v) (result)
 //@   requires SchemaMaps(sch)
 //@   modifies sch.Columns[*]; heap map[string]uint64; heap dom[string]uint64; heap column.Values
 //@   ensures [C05] SchemaMaps(sch)
@@ -477,8 +491,15 @@ package updog
 //@   ensures [C05] old((k in sch.Columns) && (v in sch.Columns[k].Values)) ==> result == old(sch.Columns[k].Values[v])
 //@   ensures [C05] !old((k in sch.Columns) && (v in sch.Columns[k].Values)) ==> result == idxOf(k, v)
 //@   ensures [C05] columns_kept: forall c string :: old(c in sch.Columns) ==> (c in sch.Columns) && sch.Columns[c] == old(sch.Columns[c])
+//@   ensures [C01] value_index_is_hash_of_column_and_value: old(SchemaHashed(sch)) ==> SchemaHashed(sch) && result == idxOf(k, v)
 
-//@ func [C05,C18] (*IndexWriter).AddRow(idx, values) (rowID, err)
+//@ func [C05,C18,C01] (*IndexWriter).AddRow(idx, values) (rowID, err)
+//@   requires [C01] WriterSem(idx)
+//@   ensures [C01] WriterSem(idx)
+//@   ensures [C01] row_is_recorded_under_each_of_its_values: forall k string :: (k in values) ==> (rowID in wcol(idx, idxOf(k, values[k])))
+//@   ensures [C01] nothing_else_is_recorded: forall h uint64, x int :: (x in wcol(idx, h)) && !(x in old(wcol(idx, h)))
+//@        ==> x == rowID && (exists k string :: (k in values) && idxOf(k, values[k]) == h)
+//@   ensures [C01] earlier_rows_are_kept: forall h uint64, x int :: (x in old(wcol(idx, h))) ==> (x in wcol(idx, h))
 //@   requires WriterInv(idx) && idx.mtx.held == 0
 //@   assumes fewer_than_2_32_rows: idx.nextRowID < 4294967295
 //@   modifies idx.nextRowID; idx.values[*]; idx.schema.Columns[*]; heap map[string]uint64; heap dom[string]uint64; heap column.Values; heap roaring.Bitmap.view
@@ -486,6 +507,14 @@ package updog
 //@   ensures [C05,C18] WriterInv(idx) && idx.mtx.held == 0
 //@   loop 1
 //@     invariant WriterInv(idx) && idx.mtx.held == 2 && idx.nextRowID == old(idx.nextRowID) && rowID == old(idx.nextRowID)
+//@     invariant SchemaHashed(idx.schema)
+//@     invariant forall h uint64 :: (h in idx.values) ==> allocated(idx.values[h])
+//@     invariant forall h1 uint64, h2 uint64 :: (h1 in idx.values) && (h2 in idx.values) && h1 != h2 ==> idx.values[h1] != idx.values[h2]
+//@     invariant forall h uint64 :: subset(wcol(idx, h), univ(idx.nextRowID + 1))
+//@     invariant forall k string :: (k in $visited) ==> (rowID in wcol(idx, idxOf(k, values[k])))
+//@     invariant forall h uint64, x int :: (x in wcol(idx, h)) && !(x in old(wcol(idx, h)))
+//@        ==> x == rowID && (exists k string :: (k in $visited) && (k in values) && idxOf(k, values[k]) == h)
+//@     invariant forall h uint64, x int :: (x in old(wcol(idx, h))) ==> (x in wcol(idx, h))
 
 // ---------------------------------------------------------------------------------------------------------------
 // writer_big.go — disk-backed writer (C05, C06, C18, C19)
